@@ -47,6 +47,7 @@ class ExecutionContext:
     on_metric: MetricHook | None
     on_log: LogHook | None
     operation: str | None
+    settled: bool = False
 
     @classmethod
     def create(
@@ -113,6 +114,7 @@ def record_success(ctx: ExecutionContext) -> None:
     if ctx.breaker is None:
         return
 
+    ctx.settled = True
     event = ctx.breaker.record_success()
     ctx.emit_breaker_event(event, ctx.breaker.state)
 
@@ -120,6 +122,7 @@ def record_success(ctx: ExecutionContext) -> None:
 def record_cancel(ctx: ExecutionContext) -> None:
     """Record cancellation with circuit breaker (no event emitted)."""
     if ctx.breaker is not None:
+        ctx.settled = True
         ctx.breaker.record_cancel()
 
 
@@ -128,8 +131,21 @@ def record_failure(ctx: ExecutionContext, klass: ErrorClass) -> None:
     if ctx.breaker is None:
         return
 
+    ctx.settled = True
     event = ctx.breaker.record_failure(klass)
     ctx.emit_breaker_event(event, ctx.breaker.state, klass)
+
+
+def settle_if_unsettled(ctx: ExecutionContext) -> None:
+    """
+    Release the breaker if an admitted call ended without reporting its result.
+
+    Covers BaseException exits (GeneratorExit, CancelledError, ...), nested
+    CircuitOpenError and raising user callbacks, so a half-open probe slot is
+    never leaked.
+    """
+    if not ctx.settled:
+        record_cancel(ctx)
 
 
 def classify_for_breaker(exc: BaseException, retry: Any) -> ErrorClass:
